@@ -244,6 +244,10 @@ class Model:
             w.slot[s] = w.new_transport()
             w.take_log()
 
+    def future(self, w):
+        return e1.drain_future(self, w, [
+            ('loss', s, REASONS[s % len(REASONS)]) for s in range(self.T)])
+
     def canon(self, w):
         st = []
         for s in range(self.T):
@@ -336,9 +340,21 @@ def run(tier, seed, result):
     notes = []
     closure = True
     cap = 0 if tier == 'quick' else 1
-    for cfg in configs(tier):
-        params = dict(cfg, cap=cap)
-        st = e1.explore('c04', params, result, max_depth=40)
+    runs = [dict(cfg, cap=cap) for cfg in configs(tier)]
+    if tier != 'quick':
+        # the deeper path monitor (cap 1) runs without the state-doubling
+        # "accepted after joining a room" outcome; that outcome is covered
+        # with cap 0 in a second pass
+        noj = [o for o in app.OUTCOMES + app.JOIN_OUTCOMES if o != 'jaccept']
+        runs = [dict(r, outcomes=noj) for r in runs] + \
+            [dict(cfg, cap=0) for cfg in configs(tier)]
+    for i, params in enumerate(runs):
+        cfg = {k: v for k, v in params.items() if k != 'outcomes'}
+        # thorough, second pass: with the "every transport is lost"
+        # look-ahead as part of the state identity (e1.drain_future)
+        fut = tier != 'quick' and params['cap'] == 0
+        st = e1.explore('c04', params, result, max_depth=40,
+                        use_future=fut)
         closure = closure and st['closure']
         notes.append('%s: states=%d transitions=%d depth=%d closure=%s' % (
             ','.join(f'{k}={v}' for k, v in cfg.items()), st['states'],
